@@ -43,6 +43,27 @@ def scenarios(ctx):
             else:
                 steps.append({"op": "adv", "d": rng.choice([1, 1, 2, r - 1 if r > 1 else 1, r, r + 1, n * r - 1, n * r, n * r + 1, 3 * n * r])})
         out.append({"id": "rnd-%d" % i, "cfg": {"n": n, "r": r, "tick_ms": 500, "kind": rng.choice(["ratio", "counter"])}, "steps": steps})
+    # phase sweep: resolutions whose step grid is not aligned with the second / the epoch (7 s, 11 s, 13 s, 3.5 s, 1.1 s ...),
+    # an increment at every phase of a step followed by reads after every gap up to two windows
+    grid = [(500, 14), (500, 22), (500, 26), (500, 7), (500, 9), (100, 11), (100, 17), (500, 3), (1000, 7)]
+    k = 0
+    for tick, r in grid:
+        for n in (1, 2, 3):
+            phases = range(r) if not quick else rng.sample(range(r), min(r, 4))
+            for ph in phases:
+                steps = []
+                if ph:
+                    steps.append({"op": "adv", "d": ph})
+                t = 0
+                for _ in range(6 if quick else 14):
+                    steps.append({"op": "inc", "v": rng.choice([1, 2]), "which": "a"})
+                    g = rng.randint(1, (n + 1) * r)
+                    steps.append({"op": "adv", "d": g})
+                    steps.append({"op": "count"})
+                    g2 = rng.randint(1, r)
+                    steps.append({"op": "adv", "d": g2})
+                out.append({"id": "phase-%d" % k, "cfg": {"n": n, "r": r, "tick_ms": tick, "kind": "counter"}, "steps": steps})
+                k += 1
     return out
 
 
